@@ -68,6 +68,36 @@ func (c *aeCtx) rootArgs(r *aeRun, root *ssa.Function) []any {
 	return args
 }
 
+// subDomain: the language of capture group k for the k-th element of a modelled submatch list
+func (c *aeCtx) subDomain(key string, ti *termInfo) *fieldDomain {
+	i := strings.LastIndex(key, "[")
+	if i <= 0 || !strings.HasSuffix(key, "]") || c.subOf == nil || ti == nil || ti.kind != akOrder || !isStringType(ti.t) {
+		return nil
+	}
+	ri := c.subOf[key[:i]]
+	if ri == nil {
+		return nil
+	}
+	var k int
+	if _, err := fmt.Sscanf(key[i:], "[%d]", &k); err != nil || k < 1 || k > ri.NumSub {
+		return nil
+	}
+	if lang, fin := groupLanguage(ri.Re, k); fin {
+		m := map[string]bool{}
+		if !(k < len(ri.GroupMust) && ri.GroupMust[k]) {
+			m[""] = true
+		}
+		for _, s := range lang {
+			m[s] = true
+		}
+		return &fieldDomain{closed: true, allowed: keysOf(m)}
+	}
+	if k < len(ri.GroupMust) && ri.GroupMust[k] && ri.GroupMin[k] >= 1 {
+		return &fieldDomain{excluded: []string{""}}
+	}
+	return nil
+}
+
 // candidates for a demanded atom, filtered by the consistency constraints:
 //   - a value derived from bases (Atoi(x), len(x), zip order of Split(x)) is equal for
 //     individuals whose bases are equal;
@@ -87,25 +117,7 @@ func (c *aeCtx) candidates(w *world, na needAtom) []int {
 			cands = []int{0, 1}
 		}
 		var dom *fieldDomain
-		if i := strings.LastIndex(na.key, "["); i > 0 && strings.HasSuffix(na.key, "]") && c.subOf != nil {
-			if ri := c.subOf[na.key[:i]]; ri != nil && ti.kind == akOrder && isStringType(ti.t) {
-				var k int
-				if _, err := fmt.Sscanf(na.key[i:], "[%d]", &k); err == nil && k >= 1 && k <= ri.NumSub {
-					if lang, fin := groupLanguage(ri.Re, k); fin {
-						m := map[string]bool{}
-						if !(k < len(ri.GroupMust) && ri.GroupMust[k]) {
-							m[""] = true
-						}
-						for _, s := range lang {
-							m[s] = true
-						}
-						dom = &fieldDomain{closed: true, allowed: keysOf(m)}
-					} else if k < len(ri.GroupMust) && ri.GroupMust[k] && ri.GroupMin[k] >= 1 {
-						dom = &fieldDomain{excluded: []string{""}}
-					}
-				}
-			}
-		}
+		dom = c.subDomain(na.key, ti)
 		if o, ok := c.originOf[na.key]; ok && ti.kind == akOrder && isStringType(ti.t) {
 			dom = c.fieldDomainFor(na.key, o)
 		}
